@@ -1432,6 +1432,77 @@ def second_read_family(ctx, rounds):
                                    "maxseg": ctx.rng.choice([16, 24, 50]), "size": ctx.rng.choice([33, 100, 700]), "trials": trials})
 
 
+# ----------------------------------------------------------------------------- the map update's signature cache
+
+_SC_KEYS = []
+
+
+def signature_cache_cases(ctx, count, corpus=True, rng=None):
+    """The real ServermapUpdater._got_signature_one_share (an updater object without its network side,
+    a real ServerMap, a real RSA key pair and real signatures) fed sequences of shares: per share, was
+    it entered into the servermap or rejected with CorruptShareError?  Compared with the model's cache."""
+    from allmydata.crypto import rsa
+    from allmydata.mutable.servermap import ServermapUpdater, ServerMap
+    from allmydata.mutable.common import CorruptShareError
+    rng = rng or ctx.rng
+    if not _SC_KEYS:
+        _SC_KEYS.append(rsa.create_signing_keypair(2048))
+    (priv, pub) = _SC_KEYS[0]
+
+    class _Node:
+        def get_pubkey(self):
+            return pub
+    sigs = {}
+    lines, impls, cases = [], [], []
+    fixed = [["2:9:7:10:0:g", "2:9:7:9:0:b", "2:9:7:10:0:b", "2:9:7:10:1:b", "3:1:1:5:0:b"],          # C10-a: same seq/root/salt, other datalength
+             ["2:9:7:10:0:b", "2:9:7:10:0:g", "2:9:7:10:0:b"]] if corpus else []
+    for c in range(count + len(fixed)):
+        if c < len(fixed):
+            toks = fixed[c]
+        else:
+            base = [(rng.randrange(1, 3), rng.randrange(2), rng.randrange(2), rng.choice([9, 10]), rng.randrange(2)) for _ in range(3)]
+            toks = []
+            for _ in range(rng.randrange(1, 9)):
+                v = rng.choice(base)
+                toks.append("%d:%d:%d:%d:%d:%s" % (v + (rng.choice("ggb"),)))
+        u = ServermapUpdater.__new__(ServermapUpdater)
+        u._running = True
+        u._valid_versions = set()
+        u._node = _Node()
+        u._servermap = ServerMap()
+        u._servers_with_shares = set()
+        u.log = lambda *a, **k: None
+        out = []
+        for i, t in enumerate(toks):
+            (seq, root, salt, datalen, offs, g) = t.split(":")
+            prefix = struct.pack(">BQ32s16sBBQQ", 0, int(seq), b"%032d" % int(root), b"%016d" % int(salt), 1, 1, 1, int(datalen))
+            if g == "g":
+                if prefix not in sigs:
+                    sigs[prefix] = rsa.sign_data(priv, prefix)
+                sig = sigs[prefix]
+            else:
+                if b"other" not in sigs:
+                    sigs[b"other"] = rsa.sign_data(priv, b"some other message")
+                sig = sigs[b"other"]
+            raw = (int(seq), b"%032d" % int(root), b"%016d" % int(salt), 1, int(datalen), 1, 1, prefix,
+                   {"signature": 100 + int(offs), "EOF": 900})
+            try:
+                u._got_signature_one_share((None, (True, raw), (True, sig), None, None), i, _StubServer(i), None)
+                out.append("e")
+            except CorruptShareError:
+                out.append("r")
+            # the statement on the real object: nothing enters the map without a signature over exactly its prefix
+            if out[-1] == "e" and g == "b" and not any(tt.split(":")[:5] == t.split(":")[:5] and tt.endswith("g") for tt in toks[:i]):
+                ctx.violation("the map update entered a share whose signed prefix was never verified", {"shares": toks, "index": i},
+                              "unverified-prefix-entered:signature-cache")
+        lines.append("sc v " + " ".join(toks))
+        impls.append("".join(out))
+        cases.append({"shares": toks})
+        ctx.case(lines[-1] if "b" in "".join(t[-1] for t in toks) else None)
+        ctx.count("sigcache:" + ("all-entered" if "r" not in out else "some-rejected"))
+    ctx.compare("ServermapUpdater._got_signature_one_share: entered / rejected per share", cases, impls, ctx.model(lines))
+
+
 def fixed_minimal_corpus(ctx):
     """One minimal, fully fixed instance of each random family that is the only catcher of some past
     change (nothing here draws from ctx.rng): the VERIF_CORPUS_ONLY run ends after this."""
@@ -1456,6 +1527,7 @@ def fixed_minimal_corpus(ctx):
     shared_server_family(ctx, 0, corpus=True)
     retrieve_loop_cases(ctx, 0, corpus=True)
     retrieve_tree_cases(ctx, 0, corpus=True)
+    signature_cache_cases(ctx, 0, corpus=True)
 
 
 def run(ctx):
@@ -1487,6 +1559,7 @@ def run(ctx):
     consistent_forgery_family(ctx, ctx.budget(12, 240))
     retrieve_tree_cases(ctx, ctx.budget(300, 20000), corpus=False)
     versionmap_cases(ctx, ctx.budget(300, 20000))
+    signature_cache_cases(ctx, ctx.budget(150, 5000), corpus=False)
     retrieve_loop_cases(ctx, ctx.budget(300, 20000), corpus=False)
     prefix_alteration_family(ctx, ctx.budget(6, 120))
     shared_server_family(ctx, ctx.budget(6, 120), corpus=False)
